@@ -10,6 +10,7 @@ from ..core import Case, call
 PROP = "C16"
 LEVEL = "exploration"
 SHARDS = {"quick": 2, "thorough": 16}
+THOROUGH_DEPTH = 60      # thorough tier = this many times the base thorough budget (VERIF_DEPTH overrides)
 F_REGIONS = ["f:zero", "f:1e-6..1e-4", "f:1e-4..1e-2", "f:1e-2..0.2"]
 REGIONS = {r: 50 for r in F_REGIONS}
 REGIONS_FIXED = {"bodies": 9, "wgs84": 1}
